@@ -407,7 +407,7 @@ class Heap:
         self._a2(field)
         return self.a2cols[field].read(ref)
 
-    def write_a2_where(self, field, ref, guard_ij, valf, cond=True):
+    def write_a2_where(self, field, ref, guard_ij, valf, cond=True, col=None, row=None):
         fm = self._a2(field)
         self.touched.add(("a2", field, None))
         self.a2[field] = fm.write(lambda r, i, j, ref=ref, cond=cond: conj(cond, ref_eq(r, ref), guard_ij(i, j)), lambda r, i, j: valf(i, j))
